@@ -269,7 +269,7 @@ def run_shard(ctx):
         shared_wrappers(ctx, sut, rng, idx)
     for idx in range(ctx.params["trees"]):
         gen = gen_dsl.Gen(rng, max_depth=rng.choice([0, 1, 1, 2, 3]), share=0.05, renames=0.5,
-                          explicit_required=0.4, defaults=0.3)
+                          explicit_required=0.4, defaults=0.3, long_descriptions=True)
         spec = gen.spec()
         if spec["t"] == "ref":
             continue
